@@ -70,7 +70,17 @@ SupportBounds(k, p) ==
     [] k = "Binomial" -> [lo |-> RJ(RZ), hi |-> RJ(P(k, p, 1)), lo_open |-> FALSE, hi_open |-> FALSE]
     [] k = "Bernoulli" -> [lo |-> RJ(RZ), hi |-> RJ(ROne), lo_open |-> FALSE, hi_open |-> FALSE]
 
-\* end points of the support of a density: a single point carries no mass, the value there is a convention and
+\* end points that belong to the support as the crate documents it (closed ends): there the density must equal the
+\* textbook formula like at any other point of the support (where the formula is finite).  ChiSquared: the crate states
+\* "if dof = 1 then x should be positive, otherwise non-negative"; Gamma documents an open support and stays unjudged.
+ClosedEnd(k, p, x) ==
+  CASE k = "Exponential" -> RIsZero(x)
+    [] k = "ChiSquared" -> RIsZero(x) /\ RLe(R(2), P(k, p, 1))
+    [] k = "Beta" -> RIsZero(x) \/ x = ROne
+    [] k = "Pareto" -> x = P(k, p, 2)
+    [] k = "Uniform" -> x = P(k, p, 1) \/ x = P(k, p, 2)
+    [] OTHER -> FALSE
+\* end points of the support of a density: at an open end the value is a convention and
 \* is not judged (only finiteness and non-negativity)
 OnBoundary(k, p, x) ==
   CASE k \in {"Gamma", "ChiSquared", "Exponential"} -> RIsZero(x)
